@@ -280,7 +280,9 @@ CONTROLS = [('1', 1), ('"a"', 'a'), ('TRUE', True), ('2*3', 6), ('SUM(1,2)', 3),
             ('1<2', True), ('-vok', -5), ('FOK(4)', 4), ('""', ''), ('0', 0), ('FALSE', False),
             # TEXT that merely spells an error code is not an error value
             ('"#N/A"', '#N/A'), ('"#DIV/0!"', '#DIV/0!'), ('"#N"&"/A"', '#N/A'), ('vtna', '#N/A'), ('FOK("#REF!")', '#REF!'),
-            ('IFERROR(1/0,"#N/A")', '#N/A'), ('T("#VALUE!")', '#VALUE!')]
+            ('IFERROR(1/0,"#N/A")', '#N/A'), ('T("#VALUE!")', '#VALUE!'),
+            # a blank is not an error either, and stays a blank
+            ('vblank', None), ('Z99', None), ('FOK(vblank)', None), ('0.0', 0.0), ('2.5', 2.5)]
 
 
 class Controls(Sub):
@@ -316,6 +318,18 @@ class Controls(Sub):
             if not ok:
                 return fail('%s = %r, expected %r (the argument %s is not an error)' % (f % text, out, want, text),
                             want, out)
+        # IFERROR(x,y) = y when x is an error: y comes back as it is (a blank as a blank, 0 as 0, "" as "")
+        for f in ('IFERROR(1/0,%s)', 'IFNA(NA(),%s)', 'IFERROR(FRAISE(2),%s)', 'IFERROR(eva,%s)'):
+            out = ev(f % text)
+            ok = out[0] == 'v' and out[1] == val and type(out[1]) is type(val)
+            if not ok:
+                return fail('%s = %r, expected the second argument %r unchanged (the first is an error)' % (f % text, out, val),
+                            val, out)
+        if val is None:
+            for f in ('ISBLANK(IFERROR(1/0,%s))', 'ISBLANK(IFERROR(%s,1))', 'ISBLANK(IFNA(%s,1))', 'ISBLANK(IFNA(NA(),%s))'):
+                out = ev(f % text)
+                if out != ['v', True]:
+                    return fail('%s = %r, expected TRUE: the blank argument comes back as a blank' % (f % text, out), True, out)
         return None
 
 
